@@ -17,11 +17,12 @@ import (
 // ---- C10: every text through the five compile entry points, from a known state ----
 
 type cCase struct {
-	ID   int      `json:"id"`
-	Base string   `json:"base"` // the rule set installed before the text is submitted
-	Mid  string   `json:"mid"`  // optional: an incremental text applied after Base and before the text (so Base may equal the text)
-	Text string   `json:"text"`
-	Rm   []string `json:"rm,omitempty"` // optional: names removed after Base / Mid and before the text is submitted
+	ID      int      `json:"id"`
+	Base    string   `json:"base"` // the rule set installed before the text is submitted
+	Mid     string   `json:"mid"`  // optional: an incremental text applied after Base and before the text (so Base may equal the text)
+	Text    string   `json:"text"`
+	Reclear bool     `json:"reclear,omitempty"` // pool entries: clear the pool AGAIN after Mid (clear ; Mid ; clear ; text); builder entries: a fresh builder, Mid skipped
+	Rm      []string `json:"rm,omitempty"`      // optional: names removed after Base / Mid and before the text is submitted
 }
 
 type cEntryObs struct {
@@ -136,7 +137,7 @@ func runCompileCase(c *cCase) cObs {
 				continue
 			}
 		}
-		if c.Mid != "" {
+		if c.Mid != "" && !c.Reclear {
 			if e := rb.BuildRuleWithIncremental(c.Mid); e != nil {
 				add(cEntryObs{Entry: entry, Panic: "mid does not compile: " + e.Error()})
 				continue
@@ -196,6 +197,9 @@ func runCompileCase(c *cCase) cObs {
 				add(cEntryObs{Entry: entry, Panic: "mid does not compile: " + e.Error()})
 				continue
 			}
+		}
+		if c.Reclear {
+			gp.ClearPoolRules()
 		}
 		if len(c.Rm) > 0 {
 			if e, p := guard(func() error { return gp.RemoveRules(c.Rm) }); e != nil || p != "" {
